@@ -459,12 +459,13 @@ func search(t *testing.T, p *Prop, job *Job, emit func(any), tick func()) {
 		for k, v := range o.Faults {
 			sum.Faults[k] += v
 		}
-		if i >= job.DetFrom && i < job.DetTo {
+		// (a run that ended inconclusive — a timeout, a budget — has no observation to compare)
+		if i >= job.DetFrom && i < job.DetTo && o.Inconclusive == 0 {
 			sum.DetHashes[fmt.Sprint(i)] = fmt.Sprintf("%016x", o.Hash)
 			// in-process repeat: the same seed must give the same run
 			w2, s2 := p.Gen(verifsim.NewRng(seed), job.Tier)
 			o2 := p.Exec(t, w2, s2)
-			if o2.Hash != o.Hash {
+			if o2.Hash != o.Hash && o2.Inconclusive == 0 {
 				sum.SelfCheckBad++
 				fmt.Fprintf(os.Stderr, "NONDETERMINISM run=%d hash %x vs %x\n", i, o.Hash, o2.Hash)
 			}
